@@ -460,7 +460,14 @@ impl<'a, 'src: 'a> Compiler<'a, 'src> {
   /// Emit byte code for a return
   fn emit_return(&mut self, line: u32) {
     match self.fun_kind {
-      FunKind::Initializer => self.emit_byte(SymbolicByteCode::GetLocal(0), line),
+      FunKind::Initializer => {
+        // self lives in a box once a closure inside the initializer has captured it
+        let get_self = match self.resolve_local(SELF) {
+          Some((_, SymbolState::LocalCaptured)) => SymbolicByteCode::GetBox(0),
+          _ => SymbolicByteCode::GetLocal(0),
+        };
+        self.emit_byte(get_self, line)
+      },
       _ => self.emit_byte(SymbolicByteCode::Nil, line),
     }
 
